@@ -1,5 +1,5 @@
 import ProductMD.Model.TreeInfo
-import ProductMD.Model.IniText
+import ProductMD.Model.IniParse
 /-!
 Model of `productmd/discinfo.py`: four lines (timestamp, description, arch, disc numbers).
 
@@ -43,7 +43,7 @@ def buildFile (lines : List Str) : Str := Str.joinWith '\n' lines
 
 /-- `parse_file`: `[i.strip() for i in f.readlines()]` -/
 def parseFile (text : Str) : List Str :=
-  (IniText.linesOf text).map Str.strip
+  (IniParse.fileLines text).map Str.strip
 
 def mapMInt : List Str → Except Err (List Int)
   | [] => .ok []
